@@ -100,6 +100,13 @@ class DetectCycles:
             for rows in itertools.product(range(len(pats)), repeat=n):
                 for m in range(0, n + 2):
                     yield {'rows': list(rows), 'm': m, 'thr': list(self.THR)}
+        # threshold vectors on the ends of [0, 1] (a value exactly 0 or NaN must not qualify against threshold 0)
+        for thr in ([0., 0., 0., 0.], [0., .5, .5, .75], [.25, 0., .5, 0.], [1., 1., 1., 1.], [0., 1., 0., 1.]):
+            for n in range(3, 5):
+                for rows in itertools.product(range(len(pats)), repeat=n):
+                    if tier == 'quick' and n == 4 and hash(rows) % 5:
+                        continue
+                    yield {'rows': list(rows), 'm': 2, 'thr': thr}
         if tier == 'quick':
             rng = random.Random(seed)
             for _ in range(3000):
